@@ -1,6 +1,8 @@
 package an
 
 import (
+	"strings"
+
 	"sort"
 
 	"golang.org/x/tools/go/callgraph"
@@ -71,7 +73,7 @@ func (p *Prog) Reach(roots []*ssa.Function, o ReachOpts) map[*ssa.Function]*call
 		if o.Stop != nil && o.Stop(f) {
 			continue
 		}
-		if o.OnlyRepo && !p.InRepo(f) {
+		if o.OnlyRepo && !p.InRepo(f) && !p.repoWrapper(f) {
 			continue
 		}
 		n := g.Nodes[f]
@@ -164,4 +166,18 @@ func SortedFnNames(m map[*ssa.Function]bool) []string {
 	}
 	sort.Strings(xs)
 	return xs
+}
+
+// repoWrapper: a compiler-made wrapper (bound-method closure, method thunk, instantiation wrapper) around a function of the
+// analysed module. Reachability restricted to the module passes through such wrappers: `h.runAllHooks` handed over as
+// a function value is a call of (*HooksCaller).runAllHooks.
+func (p *Prog) repoWrapper(f *ssa.Function) bool {
+	if f == nil || f.Synthetic == "" {
+		return false
+	}
+	pp := FnPkgPath(f)
+	if !(pp == Module || strings.HasPrefix(pp, Module+"/")) {
+		return false
+	}
+	return strings.HasSuffix(f.Name(), "$bound") || strings.HasSuffix(f.Name(), "$thunk") || strings.Contains(f.Synthetic, "wrapper") || strings.Contains(f.Synthetic, "instantiation") || strings.Contains(f.Synthetic, "instance")
 }
